@@ -357,6 +357,9 @@ func (s *Server) handlePostHalt(w http.ResponseWriter, r *http.Request) {
 	if err != nil {
 		Error(w, r, fmt.Errorf("invalid id: %q", q.Get("id")), http.StatusBadRequest)
 		return
+	} else if lockID == 0 {
+		Error(w, r, fmt.Errorf("id required"), http.StatusBadRequest)
+		return
 	}
 
 	// Cannot issue remote halt lock from this node.
